@@ -13,6 +13,9 @@ func TestReplay_Front(t *testing.T) {
 	frontReplay("TestProp_C07_Fidelity", runC07)
 	frontReplay("TestProp_C12_Ingress", runC12)
 	frontReplay("TestProp_C15_Publish", runC15)
+	frontReplay("TestProp_C18_Reload", runC18)
+	frontReplay("TestProp_C18_FileCrash", runC18File)
+	frontReplay("TestProp_C18_MgmtRollback", runC18Mgmt)
 	frontReplay("TestProp_C12_RateLimit", runC12RL)
 	frontReplay("TestProp_C17_Inbound", runC17In)
 }
